@@ -135,6 +135,8 @@ def _geo_class(a):
         parts.append("padded")
     if any((s or 1) > k for s, k in zip(ss * len(ks), ks)):
         parts.append("stride>kernel")
+    if any((s or k) >= k and d > 1 and k > 1 for s, k, d in zip(ss * len(ks), ks, ds * len(ks))):
+        parts.append("interleaved")
     parts.append("argform=" + ("tuple" if isinstance(a["kernel"], list) else "int"))
     return ",".join(parts)
 
@@ -270,6 +272,10 @@ def _bn_functional(L, t, a):
     training = a["training"] or not a["track"]
     out = L.sg.batch_norm(t[0], g, b, rmt, rvt, training, a["momentum"], a["eps"])
     STATE["bn"] = (rmt, rvt)
+    if a.get("second_forward"):
+        # a later training-mode call on the same buffers, before the first output is differentiated
+        x2 = T(np.asarray(t[0].data) * 0.5 + 3.0)
+        L.sg.batch_norm(x2, g, b, rmt, rvt, True, 0.9, a["eps"])
     return out
 
 
@@ -286,7 +292,14 @@ def _bn_module(L, t, a):
         m.running_var.data = rv.data.copy()
     m.train() if a["training"] else m.eval()
     STATE["bn"] = (m.running_mean, m.running_var)
-    return m(t[0])
+    out = m(t[0])
+    if a.get("second_forward"):
+        was = m.training
+        m.train()
+        m.momentum = 0.9
+        m(L.Tensor(np.asarray(t[0].data) * 0.5 + 3.0))
+        m.train() if was else m.eval()
+    return out
 
 
 def _bn_ref(xs, a):
@@ -298,7 +311,7 @@ def _bn_ref(xs, a):
 
 reg(NNOp("batch_norm", {"functional": _bn_functional, "module": _bn_module}, _bn_ops, _bn_ref,
          mode=lambda a: "richardson" if (a["training"] or not a["track"]) else "affine",
-         argclass=lambda a: f"training={a['training']},affine={a['affine']},track={a['track']},rank{len(a['xshape'])}"))
+         argclass=lambda a: f"training={a['training']},affine={a['affine']},track={a['track']},rank{len(a['xshape'])}" + (",then-training-forward" if a.get("second_forward") else "")))
 
 
 # ---------------------------------------------------------------------------------------- dropout
@@ -449,6 +462,9 @@ def grid(name, tier, rng):
                     for track in (True, False):
                         for mom in ((0.1, 0.5) if th else (0.1,)):
                             out.append({"xshape": xs, "training": training, "affine": affine, "track": track, "momentum": mom, "eps": 1e-5})
+                        if track:
+                            out.append({"xshape": xs, "training": training, "affine": affine, "track": track, "momentum": 0.1, "eps": 1e-5,
+                                        "second_forward": True})
     elif name == "dropout":
         for s in [[4, 5], [2, 3, 4], [20]]:
             for p in (0, 0.3, 0.9, 1, 0.5):
